@@ -50,11 +50,16 @@ func genC13(t *rapid.T) c13Case {
 		case "adapter.oneway":
 			s.Behaviour = rapid.SampledFrom([]string{"blockwrite", "blockflush"}).Draw(t, "b")
 		case "nats":
-			s.Behaviour = rapid.SampledFrom([]string{"silent", "late", "otherop", "noresponder", "stalled-link", "stalled-link-oneway"}).Draw(t, "b")
+			s.Behaviour = rapid.SampledFrom([]string{"silent", "late", "otherop", "noresponder", "stalled-link", "stalled-link-oneway", "slow-link"}).Draw(t, "b")
 		case "http":
-			s.Behaviour = rapid.SampledFrom([]string{"silent", "late"}).Draw(t, "b")
+			s.Behaviour = rapid.SampledFrom([]string{"silent", "late", "drop-then-silent"}).Draw(t, "b")
 		}
 		s.LateMs = rapid.IntRange(1, 200).Draw(t, "late")
+		if s.Behaviour == "slow-link" || s.Behaviour == "drop-then-silent" {
+			// the peer uses up 60..80% of the timeout before the call can make its next step, so a
+			// timeout that is restarted per step overruns by more than the allowance
+			s.TimeoutUs = rapid.IntRange(800, 1200).Draw(t, "longms") * 1000
+		}
 		c.Subs = append(c.Subs, s)
 	}
 	return c
@@ -229,7 +234,7 @@ func execC13Sub(s c13Sub) *ev.Failure {
 		var conn *nats.Conn
 		var err error
 		var proxy *pauseProxy
-		if strings.HasPrefix(s.Behaviour, "stalled-link") {
+		if strings.HasPrefix(s.Behaviour, "stalled-link") || s.Behaviour == "slow-link" {
 			// the client talks to the broker through a TCP proxy that can stop forwarding:
 			// the link looks CONNECTED but nothing moves
 			u, uerr := natsURL()
@@ -277,6 +282,20 @@ func execC13Sub(s c13Sub) *ev.Failure {
 			return ev.Failf("harness:open", "%v", err)
 		}
 		defer tr.Close()
+		if proxy != nil && s.Behaviour == "slow-link" {
+			// everything the broker sends (PONGs included) reaches the client late, nobody answers
+			conn.Flush()
+			proxy.setDelay(time.Duration(float64(timeout) * (0.6 + float64(s.LateMs)/1000)))
+			f := call(func() error { _, err := tr.Request(ctx, req); return err }, true)
+			proxy.setDelay(0)
+			if f != nil {
+				return f
+			}
+			if n := frugal.VerifRegistryLen(tr); n != 0 {
+				return ev.Failf("registration-left", "%s: %d registrations left after the call returned", what, n)
+			}
+			return nil
+		}
 		if proxy != nil {
 			conn.Flush()
 			proxy.pause()
@@ -328,6 +347,50 @@ func execC13Sub(s c13Sub) *ev.Failure {
 		return nil
 
 	case "http":
+		if s.Behaviour == "drop-then-silent" {
+			// a peer that takes the request, stays quiet for most of the timeout, drops the
+			// connection without answering and is silent on every later connection
+			l, err := net.Listen("tcp", "127.0.0.1:0")
+			if err != nil {
+				return ev.Failf("harness:listen", "%v", err)
+			}
+			defer l.Close()
+			quiet := time.Duration(float64(timeout) * (0.6 + float64(s.LateMs)/1000))
+			stop := make(chan struct{})
+			defer close(stop)
+			go func() {
+				for n := 0; ; n++ {
+					c, err := l.Accept()
+					if err != nil {
+						return
+					}
+					go func(c net.Conn, first bool) {
+						defer c.Close()
+						buf := make([]byte, 4096)
+						c.SetReadDeadline(time.Now().Add(5 * time.Second))
+						c.Read(buf)
+						d := 8 * time.Second
+						if first {
+							d = quiet
+						}
+						select {
+						case <-time.After(d):
+						case <-stop:
+						}
+					}(c, n == 0)
+				}
+			}()
+			tr := frugal.NewFHTTPTransportBuilder(&http.Client{}, "http://"+l.Addr().String()).Build()
+			// any error will do (the connection was dropped), but within the caller's timeout
+			var rerr error
+			if f := call(func() error { _, rerr = tr.Request(ctx, req); return rerr }, false); f != nil {
+				return f
+			}
+			if rerr == nil {
+				return ev.Failf("no-error", "%s: Request returned no error although the peer never answered", what)
+			}
+			return nil
+		}
 		release := make(chan struct{})
 		ts := httptest.NewServer(http.HandlerFunc(func(w http.ResponseWriter, r *http.Request) {
 			select {
@@ -363,6 +426,7 @@ type pauseProxy struct {
 	mu     sync.Mutex
 	cond   *sync.Cond
 	paused bool
+	delay  time.Duration
 	conns  []net.Conn
 }
 
@@ -387,14 +451,21 @@ func newPauseProxy(target string) (*pauseProxy, error) {
 			p.mu.Lock()
 			p.conns = append(p.conns, c, up)
 			p.mu.Unlock()
-			go p.pipe(c, up)
-			go p.pipe(up, c)
+			go p.pipe(c, up, true)
+			go p.pipe(up, c, false)
 		}
 	}()
 	return p, nil
 }
 
-func (p *pauseProxy) pipe(dst, src net.Conn) {
+// setDelay makes the proxy hold back every chunk travelling towards the client for d.
+func (p *pauseProxy) setDelay(d time.Duration) {
+	p.mu.Lock()
+	p.delay = d
+	p.mu.Unlock()
+}
+
+func (p *pauseProxy) pipe(dst, src net.Conn, towardsClient bool) {
 	buf := make([]byte, 32*1024)
 	for {
 		n, err := src.Read(buf)
@@ -403,7 +474,11 @@ func (p *pauseProxy) pipe(dst, src net.Conn) {
 			for p.paused {
 				p.cond.Wait()
 			}
+			d := p.delay
 			p.mu.Unlock()
+			if towardsClient && d > 0 {
+				time.Sleep(d)
+			}
 			if _, werr := dst.Write(buf[:n]); werr != nil {
 				return
 			}
